@@ -406,7 +406,7 @@ def run_job(scr, job, small=False, trace_prop=None, timeout=None):
         for l in remaining:
             # trace-window loops of the harness helper layer (XV_WIN iterations)
             line = _srcline(l.get("file", ""), l.get("line", 0))
-            if "XV_IN_BYTES" in line:
+            if "XV_IN_BYTES" in line or "XV_WINDOW" in line:
                 uws.append("%s.%d:%d" % (l["function"], l["id"], job.get("win", 96) + 2))
                 continue
             # a loop of /verif's own code may state its constant bound on its line
